@@ -229,7 +229,7 @@ REG.macro("eff_ext", ["ext", "rext", "q"],
 REG.macro("gea_diff", ["root_path", "module_path"], "dotted_path(path_rel(path_of(module_path), path_of(root_path)))")
 _OPTS = dict(exclusions="Bag[Str]", exclude_external_libraries="Bool", level_limit="Opt[Int]", regex_exclusions="Opt[Bag[Str]]",
              external_exclusions="Opt[Bag[Str]]", regex_external_exclusions="Opt[Bag[Str]]")
-_OPT_DEFAULTS = dict(exclude_external_libraries="True", level_limit="None", regex_exclusions="None", external_exclusions="None", regex_external_exclusions="None")
+_OPT_DEFAULTS = dict(exclusions="DEFAULT_EXCLUSIONS", exclude_external_libraries="True", level_limit="None", regex_exclusions="None", external_exclusions="None", regex_external_exclusions="None")
 _INVALID = "gea_invalid(exclusions, regex_exclusions, exclude_external_libraries, external_exclusions, regex_external_exclusions)"
 
 
@@ -270,7 +270,7 @@ REG.add(Contract("get_evaluable_architecture", module=M_PT, view="string",
                      "same_elements(setof(Str, lambda p: opt_pat(regex_external_exclusions, p)), setof(Str, lambda q: eff_ext(external_exclusions, old(regex_external_exclusions), q)))",
                      "setof(Str, lambda p: opt_pat(regex_external_exclusions, p)) == setof(Str, lambda q: eff_ext(external_exclusions, old(regex_external_exclusions), q))"]},
                  ensures=_entry_post("root_path", "module_path"),
-                 note=_GRAMMAR_NOTE + "; the default of `exclusions` (DEFAULT_EXCLUSIONS, a module-level tuple) is not modelled: callers pass it explicitly",
+                 note=_GRAMMAR_NOTE,
                  properties=["C04", "C08", "C09", "C10", "C13"]))
 # C04: the module-object entry point builds the architecture of the path entry point on the modules' directories: it raises in exactly the same cases and its
 # constructor log satisfies literally the path entry point's postcondition with root_path := dirname(root_module.__file__), module_path := dirname(module.__file__)
